@@ -508,3 +508,133 @@ Theorem close_writes_only_when_dirty_or_version_modified : forall f,
   f_open f = true -> f_dirty f = 0 -> f_vmod f = 0 -> f_recs f = [] -> snd (hclose f) = [].
 Proof. intros. rewrite hclose_clean; auto. Qed.
 
+
+(** * Position of the guards: every guard dominates its function, every upgrade follows its last failing exit *)
+
+(** the regenerated structural facts have the values of a dominating guard: no conditional block encloses it, no
+    effect precedes it, the guarded handle is not re-assigned after it *)
+Lemma guards_dominate_full :
+  sdcreate_guard_depth = 0 /\
+  sdcreate_handle_reassigned_after_guard = 0 /\
+  sdsetdimname_guard_depth = 0 /\
+  sdsetdimname_handle_reassigned_after_guard = 0 /\
+  sdsetrange_guard_depth = 0 /\
+  sdsetrange_handle_reassigned_after_guard = 0 /\
+  sdsetattr_guard_depth = 0 /\
+  sdsetattr_handle_reassigned_after_guard = 0 /\
+  sdsetdatastrs_guard_depth = 0 /\
+  sdsetdatastrs_handle_reassigned_after_guard = 0 /\
+  sdsetcal_guard_depth = 0 /\
+  sdsetcal_handle_reassigned_after_guard = 0 /\
+  sdsetfillvalue_guard_depth = 0 /\
+  sdsetfillvalue_handle_reassigned_after_guard = 0 /\
+  sdsetdimstrs_guard_depth = 0 /\
+  sdsetdimstrs_handle_reassigned_after_guard = 0 /\
+  sdsetdimscale_guard_depth = 0 /\
+  sdsetdimscale_handle_reassigned_after_guard = 0 /\
+  sdsetdimval_comp_guard_depth = 0 /\
+  sdsetdimval_comp_handle_reassigned_after_guard = 0 /\
+  sdwritedata_guard_depth = 0 /\
+  sdwritedata_handle_reassigned_after_guard = 0 /\
+  sdsetexternalfile_guard_depth = 0 /\
+  sdsetexternalfile_handle_reassigned_after_guard = 0 /\
+  sdsetcompress_guard_depth = 0 /\
+  sdsetcompress_handle_reassigned_after_guard = 0 /\
+  sdsetchunk_guard_depth = 0 /\
+  sdsetchunk_handle_reassigned_after_guard = 0 /\
+  sdsetnbitdataset_guard_depth = 0 /\
+  sdsetnbitdataset_handle_reassigned_after_guard = 0 /\
+  sdwritechunk_guard_depth = 0 /\
+  sdwritechunk_handle_reassigned_after_guard = 0 /\
+  grsetattr_guard_depth = 0 /\
+  grsetattr_effects_before_guard = 0 /\
+  hstartaccess_guard_depth = 0 /\
+  hstartaccess_effects_before_guard = 0 /\
+  hsetlength_guard_depth = 0 /\
+  hsetlength_effects_before_guard = 0 /\
+  hlcreate_guard_depth = 0 /\
+  hlcreate_effects_before_guard = 0 /\
+  hlconvert_guard_depth = 0 /\
+  hlconvert_effects_before_guard = 0 /\
+  hxcreate_guard_depth = 0 /\
+  hxcreate_effects_before_guard = 0 /\
+  hccreate_guard_depth = 0 /\
+  hccreate_effects_before_guard = 0 /\
+  hmccreate_guard_depth = 0 /\
+  hmccreate_effects_before_guard = 0 /\
+  hmcwritechunk_guard_depth = 0 /\
+  hmcwritechunk_effects_before_guard = 0 /\
+  hdupdd_guard_depth = 0 /\
+  hdupdd_effects_before_guard = 0 /\
+  hdeldd_guard_depth = 0 /\
+  hdeldd_effects_before_guard = 0 /\
+  hdreuse_tagref_guard_depth = 0 /\
+  hdreuse_tagref_effects_before_guard = 0 /\
+  vattach_guard_depth = 0 /\
+  vattach_effects_before_guard = 0 /\
+  vdelete_guard_depth = 0 /\
+  vdelete_effects_before_guard = 0 /\
+  vsdelete_guard_depth = 0 /\
+  vsdelete_effects_before_guard = 0 /\
+  vaddtagref_guard_depth = 0 /\
+  vaddtagref_effects_before_guard = 0 /\
+  vdeletetagref_guard_depth = 0 /\
+  vdeletetagref_effects_before_guard = 0 /\
+  vswrite_guard_depth = 0 /\
+  vswrite_effects_before_guard = 0 /\
+  hwrite_guard_depth = 0 /\
+  hwrite_effects_before_guard = 0 /\
+  htrunc_guard_depth = 0 /\
+  htrunc_effects_before_guard = 0.
+Proof. repeat split; reflexivity. Qed.
+
+(** Hopen of an already open path: the write bit is given to the shared record after the reopen has been attempted
+    (exactly one "rb+" fopen before it) and no failing exit follows the update in its block *)
+Lemma hopen_upgrade_position :
+  hopen_failing_exits_after_upgrade = 0 /\ hopen_reopen_attempts_before_upgrade = 1 /\ hopen_upgrade_bits = DFACC_WRITE.
+Proof. repeat split; reflexivity. Qed.
+
+(** the SD-layer and GR guards say: no NC_RDWR flag / no write bit -> refused *)
+Definition nc_guard (g : Z -> Z) : Prop := forall fl, g fl = 1 <-> Z.land fl NC_RDWR = 0.
+Lemma nc_generic : forall fl, (if Z.eqb (Z.land fl 1) 0 then 1 else 0) = 1 <-> Z.land fl 1 = 0.
+Proof. intro fl. destruct (Z.eqb_spec (Z.land fl 1) 0); split; intro; auto; try discriminate; contradiction. Qed.
+Lemma sd_guards_full :
+  nc_guard sdcreate_denied /\
+  nc_guard sdsetdimname_denied /\
+  nc_guard sdsetrange_denied /\
+  nc_guard sdsetattr_denied /\
+  nc_guard sdsetdatastrs_denied /\
+  nc_guard sdsetcal_denied /\
+  nc_guard sdsetfillvalue_denied /\
+  nc_guard sdsetdimstrs_denied /\
+  nc_guard sdsetdimscale_denied /\
+  nc_guard sdsetdimval_comp_denied /\
+  nc_guard sdwritedata_denied /\
+  nc_guard sdsetexternalfile_denied /\
+  nc_guard sdsetcompress_denied /\
+  nc_guard sdsetchunk_denied /\
+  nc_guard sdsetnbitdataset_denied /\
+  nc_guard sdwritechunk_denied.
+Proof. unfold nc_guard, NC_RDWR. repeat (split; [exact nc_generic|]). exact nc_generic. Qed.
+Lemma grsetattr_guard : write_guard grsetattr_denied.
+Proof. unfold grsetattr_denied. wg. Qed.
+
+(** a refused reopen for writing leaves a read-only record read-only; so does any open that asks for no write access *)
+Lemma hopen_again_refused_keeps_ro : forall f mode f' r w,
+  ro_inv f -> hopen_again f mode false = (f', r, w) -> ro_inv f' /\ w = [].
+Proof.
+  intros f mode f' r w Hinv H. unfold hopen_again in H.
+  destruct (f_open f); simpl in H; [| inversion H; subst; auto].
+  destruct (nz (hopen_needs_upgrade mode (f_access f))).
+  - rewrite (hisync_ro f Hinv) in H. inversion H; subst. auto.
+  - inversion H; subst. auto.
+Qed.
+Lemma hopen_again_readonly_keeps_ro : forall f mode ok f' r w,
+  ro_inv f -> Z.land mode DFACC_WRITE = 0 -> hopen_again f mode ok = (f', r, w) -> ro_inv f' /\ w = [].
+Proof.
+  intros f mode ok f' r w Hinv Hm H. unfold hopen_again in H.
+  destruct (f_open f); simpl in H; [| inversion H; subst; auto].
+  assert (E : hopen_needs_upgrade mode (f_access f) = 0).
+  { unfold hopen_needs_upgrade, DFACC_WRITE in *. rewrite Hm. reflexivity. }
+  rewrite E in H. simpl in H. inversion H; subst. auto.
+Qed.
